@@ -193,15 +193,54 @@ pub enum TState {
 pub struct Thunk {
 	pub st: RefCell<TState>,
 }
+thread_local! {
+	/// every thunk and object created on this thread since the last release: the value graph of the reference
+	/// interpreter is full of reference cycles (thunk -> environment -> thunk, object -> cache -> thunk -> object), which
+	/// plain `Rc` never frees; they are cut open when an interpreter is dropped
+	static LIVE_THUNKS: RefCell<Vec<std::rc::Weak<Thunk>>> = const { RefCell::new(Vec::new()) };
+	static LIVE_OBJS: RefCell<Vec<std::rc::Weak<Obj>>> = const { RefCell::new(Vec::new()) };
+}
+fn track(t: Th) -> Th {
+	LIVE_THUNKS.with(|l| l.borrow_mut().push(Rc::downgrade(&t)));
+	t
+}
+/// cut every reference cycle of the values created on this thread (they must not be used afterwards)
+pub fn release_all() {
+	let thunks = LIVE_THUNKS.with(|l| std::mem::take(&mut *l.borrow_mut()));
+	let objs = LIVE_OBJS.with(|l| std::mem::take(&mut *l.borrow_mut()));
+	for w in &thunks {
+		if let Some(t) = w.upgrade() {
+			if let Ok(mut st) = t.st.try_borrow_mut() {
+				let old = std::mem::replace(&mut *st, TState::Running);
+				drop(st);
+				drop(old);
+			}
+		}
+	}
+	for w in &objs {
+		if let Some(o) = w.upgrade() {
+			let cache = o.cache.try_borrow_mut().map(|mut c| std::mem::take(&mut *c));
+			let envs = o.local_envs.try_borrow_mut().map(|mut c| std::mem::take(&mut *c));
+			drop(cache);
+			drop(envs);
+		}
+	}
+}
+impl Drop for Interp {
+	fn drop(&mut self) {
+		release_all();
+	}
+}
+
 impl Thunk {
 	pub fn lazy(env: &Env, c: &Rc<C>) -> Th {
-		Rc::new(Thunk { st: RefCell::new(TState::Lazy(env.clone(), c.clone())) })
+		track(Rc::new(Thunk { st: RefCell::new(TState::Lazy(env.clone(), c.clone())) }))
 	}
 	pub fn done(v: V) -> Th {
-		Rc::new(Thunk { st: RefCell::new(TState::Done(v)) })
+		track(Rc::new(Thunk { st: RefCell::new(TState::Done(v)) }))
 	}
 	pub fn native(f: impl FnOnce(&Interp) -> R<V> + 'static) -> Th {
-		Rc::new(Thunk { st: RefCell::new(TState::Native(Box::new(f))) })
+		track(Rc::new(Thunk { st: RefCell::new(TState::Native(Box::new(f))) }))
 	}
 	pub fn was_forced(&self) -> bool {
 		!matches!(&*self.st.borrow(), TState::Lazy(..) | TState::Native(_))
@@ -266,7 +305,9 @@ pub struct Obj {
 }
 impl Obj {
 	fn new(layers: Vec<Rc<Layer>>) -> Rc<Obj> {
-		Rc::new(Obj { layers, cache: RefCell::new(HashMap::new()), local_envs: RefCell::new(HashMap::new()), asserts: Cell::new(0) })
+		let o = Rc::new(Obj { layers, cache: RefCell::new(HashMap::new()), local_envs: RefCell::new(HashMap::new()), asserts: Cell::new(0) });
+		LIVE_OBJS.with(|l| l.borrow_mut().push(Rc::downgrade(&o)));
+		o
 	}
 }
 
